@@ -69,7 +69,17 @@ var props = map[string]propCfg{
 		Rule: "one case = one simulated run (plan + fault plan + schedule tape). Enumerated (complete for that sub-space): 14 stages x capacity {0,1,2} x input length 0..3 x 4 base schedules (thorough: length 0..4, 6 schedules), each base run re-run with the cancel injected before every step k=0..L and with each consumer walking away after every k=0..len+1 elements; then seeded random plans with cancel (step, virtual-time, at quiescence), abandonment, never-closing inputs, stalls, failing functions. " + distinctRule},
 }
 
+var seqsimAssume = []string{
+	"no concurrency, I/O or timers exist in the code under test: only the fault seam (C16) / clock seam (C18) is simulated",
+	"Go 1.26.8 testing/synctest fake clock (C18)",
+	"the reference models (30-line tree builder; Go map + total order) are written from the property text",
+}
+
 func init() {
+	props["C16"] = propCfg{Engine: "seqsim", Level: "fault_enumeration", QuickRandom: 20000, QuickWall: 25, ThoroughRand: 2000000, ThoroughWall: 420, Assumptions: seqsimAssume,
+		Rule: "one case = one visit (Morphism.Apply) of one program. Programs: every well-typed program of Join/LiftF/WrapF/Unit/Yield up to length 5 (thorough 6) after From over the type universe int, []int, [][]int, [][][]int, Void (exhaustive), plus seeded random programs up to length 9 (thorough 14), nesting depth <= 6. For each program: the fault-free visit, then one visit per callback position k with the visitor failing exactly there (exhaustive over k). evaluations = visits; distinct = distinct programs; non-trivial = program opens at least one nested context."}
+	props["C18"] = propCfg{Engine: "seqsim", Level: "exploration", QuickRandom: 20000, QuickWall: 25, ThoroughRand: 400000, ThoroughWall: 420, Assumptions: seqsimAssume,
+		Rule: "one case = one operation history executed against the real skip list and a Go map, inside a bubble whose simulated clock (the seed of the height generator) was advanced to a chosen offset before skiplist.New. Enumerated: every history of Put/Get/Remove over keys {1,2,3} x values {1,2} up to length 4 (thorough 5) x 6 clock offsets (thorough 10); then seeded random histories (quick <= 40 operations, thorough <= 2000; universes of 2..64 keys; int, reversed int and string keys; churn / descending / overwrite biases; random clock offsets). After every operation the printed form is parsed and checked. Distinct = distinct (history, clock offset); non-trivial = removes a present key or overwrites one."}
 	props["C11"] = propCfg{Engine: "pipesim", Level: "exploration", QuickRandom: 30000, QuickWall: 25, ThoroughRand: 3000000, ThoroughWall: 420,
 		Rule: "one case = one simulated run of Emit or Unfold on the virtual clock. Enumerated: {Emit,Unfold} x capacity {0,1,2,5} x consumer takes 0..4 values (thorough 0..7) x 6 base schedules x 3 consumer paces (always ready, fixed slower pace, burst after a long stall), cancel swept over every step; then seeded random plans: function family, frequency {1ms,10ms,1s}, Try-mode failing index sets, consumer paces, cancel by step / virtual time / after the consumer left. Oracles: k-th value exact (online), calls at least one frequency apart, k-th value not before k ticks, always-ready consumer receives exactly one value per tick, close and exit after cancel. " + distinctRule}
 	props["C12"] = propCfg{Engine: "pipesim", Level: "exploration", QuickRandom: 30000, QuickWall: 25, ThoroughRand: 3000000, ThoroughWall: 420,
@@ -456,6 +466,7 @@ func report(st *staged, prop string, cfg propCfg, tier string, seed uint64, outs
 	var maxAfter, maxSteps int
 	var samples []driver.Sample
 	var workerWall float64
+	partitioned := false
 	type foundAgg struct {
 		f     *driver.Found
 		count int
@@ -466,7 +477,11 @@ func report(st *staged, prop string, cfg propCfg, tier string, seed uint64, outs
 		runs += o.Runs
 		enumRuns += o.EnumRuns
 		enumBases += o.EnumBases
-		enumTotal = o.EnumTotal
+		if o.EnumTotal >= 0 {
+			enumTotal = o.EnumTotal
+		} else {
+			partitioned = true
+		}
 		randomRuns += o.RandomRuns
 		steps += o.Steps
 		vns += o.VirtualNs
@@ -483,7 +498,11 @@ func report(st *staged, prop string, cfg propCfg, tier string, seed uint64, outs
 			faults[k] += v
 		}
 		for k, v := range o.Probes {
-			probes[k] += v
+			if strings.HasPrefix(k, "max_") {
+				probes[k] = max(probes[k], v)
+			} else {
+				probes[k] += v
+			}
 		}
 		for k, v := range o.Cover {
 			cover[k] += v
@@ -517,6 +536,9 @@ func report(st *staged, prop string, cfg propCfg, tier string, seed uint64, outs
 		}
 	}
 	sort.Strings(sigs)
+	if partitioned {
+		enumTotal = enumBases // the workers partition the enumeration among themselves
+	}
 
 	known := loadKnown()
 	knownBySig := map[string]knownFinding{}
